@@ -14,3 +14,11 @@ class CompilerError(Exception):
         return f'{self.filename}:{self.line}:{self.column}:{self.message}'
 
 
+class SyntaxCompilerError(CompilerError):
+    '''Syntax error reported by the lexer or the parser.'''
+
+    def __init__(self, filename, line, column, msg):
+        self.filename = filename
+        self.line = line
+        self.column = column
+        self.message = msg
